@@ -269,6 +269,10 @@ func (x *mexec) run(pos int) pr {
 			}
 			x.act("retry")
 			x.last[len(x.last)-1] = lastRes{r.val, r.err}
+			if in.DelayFunc {
+				// the policy's delay function is consulted with the failure just recorded as the execution's last result
+				x.emitAttempt(pol, pos, "delay.fn", r.val, r.err)
+			}
 			e := x.emitAttempt(pol, pos, "OnRetryScheduled", r.val, r.err)
 			e.HasDelay = true
 			if in.CancelInScheduled && !mw.NoListeners && !in.Muted("OnRetryScheduled") {
